@@ -13,6 +13,13 @@ CLAIMED = {
     },
 }
 
+CLAIMED["C06"] = {
+    "technique": "Lean 4 invariant proof by induction over operation histories + row-selection alignment theorems; op-history correspondence with the real Datagroup",
+    "text": "C06_inv_reachable (all members share one shape after any history of insert/replace/update/delete/pop/clear of non-scalar members), C06_reject_frame, C06_getIndex_aligned (one row selection for all members and Vector components, any index kind) and C06_sortby_aligned are proved for the Lean model; C06_scalar_gate_witness proves the negation for groups whose first member is 0-d (recorded known finding). The model is tied to /repo by random histories with row-id values run on the real class and on the compiled model.",
+    "note": "trusted: Lean kernel + standard axioms; model of datagroup.py / array.py / vector.py indexing; numpy indexing + argsort modelled (ties excluded)",
+    "design_ref": "5 C06",
+}
+
 NOT_YET = {
 }
 
